@@ -92,7 +92,9 @@ def elem_c07(nm, rng):
         rng.shuffle(items)
         return {"e": "vec", "items": items}
     if k == "opt":
-        return {"e": "opt", "inner": rng.choice([filtered(nm, rng), None])}
+        none = {"e": "opt", "inner": None}
+        # also an absent layer behind further wrappers: Some(None), Box(None)
+        return rng.choice([{"e": "opt", "inner": filtered(nm, rng)}, none, none, {"e": "opt", "inner": none}, {"e": "box", "inner": none}])
     if k == "box":
         return {"e": "box", "inner": filtered(nm, rng)}
     if k == "nested":
@@ -276,6 +278,8 @@ def history(rng, steps, nthreads, flavour, elems=None):
             s = rng.choice(cands)
             del live[s]
             st = {"op": "drop", "t": t, "s": s}
+            if rng.random() < 0.3:      # the last reference is a raw one, given back through Dispatch::try_close / drop_span
+                st["raw"] = rng.choice(["try_close", "drop_span"])
             if holds and rng.random() < 0.5:
                 st["during_modify"] = rng.choice(holds)
             out.append(st)
